@@ -86,6 +86,12 @@ impl<'a> Ctx<'a> {
     fn leap(&mut self, a: &Pt, v: i8) -> Pt {
         self.leapfrogs += 1;
         let e = v as f64 * self.eps;
+        // a step that is below the resolution of the position in the backend's float type cannot
+        // move the library's position at all (x + eps p == x): its trajectory then has nothing to do
+        // with the f64 one. Not decidable against this reference: ambiguous.
+        if self.ambiguous.is_none() && self.eps.abs() * (maxabs(&a.p) + maxabs(&a.g) * self.eps.abs()) < 0.5 * self.eps_b * maxabs(&a.x) {
+            self.ambiguous = Some(format!("step size {:e} is below the resolution of the position in the backend's float type", self.eps));
+        }
         let step = |x: &[f64], p: &[f64], g: &[f64], t: &GTarget| -> (Vec<f64>, Vec<f64>, Vec<f64>) {
             let mut p1: Vec<f64> = p.iter().zip(g).map(|(p, g)| p + 0.5 * e * g).collect();
             let x1: Vec<f64> = x.iter().zip(p1.iter()).map(|(x, p)| x + e * p).collect();
